@@ -418,6 +418,45 @@ func init() {
 			strList("fromExpressionState", "termformat.FromExpression: the statements before the closure (what it can capture), error checks aside", outer, okc)
 		}
 
+
+		// ---- the float computation of the scalers, statement by statement (what `f64Arith` models operation by
+		// operation): the bodies of Scale, remapMinMax, Bucket, LengthVal, the mapVal closures of the three scalers;
+		// and the loop body of HistoWriter.fullRender (which lines a refresh redraws)
+		flat := func(n ast.Node) string { return strings.Join(strings.Fields(c.Print(n)), " ") }
+		bodyOf := func(lean, doc string, body *ast.BlockStmt) {
+			if body == nil {
+				sb.WriteString(untranslatable(lean))
+				return
+			}
+			var l []string
+			for _, st := range body.List {
+				l = append(l, flat(st))
+			}
+			strList(lean, doc, l, true)
+		}
+		funcBody := func(lean, file, fn string) {
+			fd := c.Func(file, fn)
+			if fd == nil {
+				sb.WriteString(untranslatable(lean))
+				return
+			}
+			bodyOf(lean, fn+": the statements of the body, printed", fd.Body)
+		}
+		funcBody("scaleBody", scale, "Scaler.Scale")
+		funcBody("remapBody", scale, "Scaler.remapMinMax")
+		funcBody("bucketBody", scale, "Bucket")
+		funcBody("lengthValBody", scale, "LengthVal")
+		for _, nm := range [][2]string{{"ScalerLinear", "mapLinearBody"}, {"ScalerLog2", "mapLog2Body"}, {"ScalerLog10", "mapLog10Body"}} {
+			var body *ast.BlockStmt
+			if elts, ok := c14Elts(c.Var(scale, nm[0])); ok && len(elts) >= 1 {
+				if fl, ok := elts[0].(*ast.FuncLit); ok {
+					body = fl.Body
+				}
+			}
+			bodyOf(nm[1], nm[0]+".mapVal: the statements of the closure, printed", body)
+		}
+		funcBody("histoFullRenderBody", rend+"histoWriter.go", "HistoWriter.fullRender")
+
 		// cmd/reduce.go: conditions that mention GroupColCount (the table switch and the guard of the parts loop)
 		{
 			const red = "cmd/reduce.go"
